@@ -61,6 +61,11 @@ func H_C05() {
 			}
 			s2, _ := db.NewSnapshot()
 			s2.Close()
+			// let the collector run now, i.e. before the backup has visited the remaining items
+			vQuiesce()
+			if db.GetLastGCSn() > 0 {
+				vReach("gc-ran-during-backup")
+			}
 		}
 		calls++
 	}
